@@ -70,7 +70,7 @@ def guarded_check(law, case):
     if law.name != 'no_retention':
         from .env import reset_shared_errors
         reset_shared_errors()
-    signal.setitimer(signal.ITIMER_REAL, CASE_GUARD_S)
+    signal.setitimer(signal.ITIMER_REAL, law.guard or CASE_GUARD_S)
     try:
         law.check(case)
     finally:
@@ -169,7 +169,7 @@ def run_task(task):
                     if len(failures) >= 8:
                         break
     except HarnessTimeout:
-        herr = 'case guard (%ds) hit in law %s: inconclusive' % (CASE_GUARD_S, law.name)
+        herr = 'case guard (%ds) hit in law %s: inconclusive' % (law.guard or CASE_GUARD_S, law.name)
     except BaseException:
         herr = 'law %s shard %d: %s' % (law.name, shard, traceback.format_exc())
     known = set(known_excluded)
